@@ -497,6 +497,20 @@ mod verif_bounded {
             expect(label, scen, "g5 record after the rollback (none existed at snapshot time)", name, st.group_name_(5), None);
         }
     }
+    // C10 "a lookup returns the last value saved under that key" / C17 (a file shared long ago is decrypted with the exporter secret of ITS
+    // epoch): saving the exporter secret of a later epoch, or of another group, removes no earlier one. Scope: 2 groups, epochs 1..=12.
+    #[test]
+    fn exporter_secrets_of_all_epochs_stay_readable() {
+        let label = "sqlite_bounded.exporter_secrets_of_all_epochs_stay_readable";
+        let (m, s) = stores();
+        for (name, st) in [("memory", &m as &dyn StoreOps), ("SQLite", &s as &dyn StoreOps)] {
+            for g in 1..=2u8 { st.put_group(group(g, g)); }
+            for e in 1..=12u64 { for g in 1..=2u8 { st.put_secret(GroupExporterSecret { mls_group_id: gid(g), epoch: e, secret: Secret::new([(e as u8) * 2 + g; 32]) }); } }
+            for e in 1..=12u64 { for g in 1..=2u8 {
+                expect(label, "exporter secrets of epochs 1..=12 saved in order for g1 and g2", &format!("get_group_exporter_secret(g{g}, epoch {e})"), name, st.get_secret(g, e), Some([(e as u8) * 2 + g; 32]));
+            }}
+        }
+    }
     // C20 / C09 / C06: a rollback that the back end REFUSES (its target snapshot is gone: released or TTL-pruned by another process on
     // the same file) leaves the manager's accounting as it was: nothing stored is dropped by it, and the snapshots taken before it still
     // count towards the retention limit, so after further commits the group holds exactly the `retention` most recent ones.
